@@ -114,7 +114,7 @@ def oracle(tier, rng, deep=False):
     failures = []
     ev = nontriv = 0
     tol = 1e-9
-    nrep = 3 if tier == "quick" and not deep else 20
+    nrep = 3 if tier == "quick" and not deep else (9 if tier == "quick" else 20)   # quick + broken obligation: 3x the quick search
 
     def check(name, dname, DP, pk, PP, X, y, w, b, fi, stop, inp):
         nonlocal ev, nontriv
